@@ -248,9 +248,9 @@ func TestVerifC05(t *testing.T) {
 	}
 
 	// (1) fault mode.
-	fb := []sched.Bounds{{}, {Fault: 1}}
+	fb := []sched.Bounds{{}, {Fault: 1}, {Fault: 2}}
 	if p.Thorough() {
-		fb = append(fb, sched.Bounds{Fault: 2})
+		fb = append(fb, sched.Bounds{Fault: 3})
 	}
 	for _, b := range fb {
 		ex := &sched.Explorer{Sc: zzvC05FaultScenario(base), Bounds: b, Deadline: p.Deadline, Shard: p.Shard, NShards: p.NShards}
